@@ -199,7 +199,32 @@ def quadrature_convention(ctx, rule="C16.param-flow"):
     return n
 
 
+def walrus_ordering(ctx, rule="C16.param-flow"):
+    ctx.explain(f"{rule}: (library ordering) thewalrus takes means / covariances in xxpp ordering; BaseBosonicState stores them interleaved "
+                "(xpxp): every thewalrus.quantum call of the class that receives the state's (or a reduced state's) means / covariances "
+                "receives them through xpxp_to_xxpp. (For one mode the two orderings coincide - which is all the tests use.)")
+    cls = ctx.tree.cls(ST, "BaseBosonicState")
+    n = 0
+    for name, f in sorted(cls.methods.items()):
+        cfg = cfg_of(f.node)
+        for c in walk_no_nested(f.node):
+            if isinstance(c, ast.Call) and (dotted(c.func) or "").startswith("twq.") and c.args:
+                ids = cfg.node_of_expr(c)
+                for k, a in enumerate(c.args[:2]):
+                    d = derives(f.node, a, ids[0] if ids else None)
+                    src = {"self._mus", "self._covs"} & d.attrs or d.has_call("self.reduced_bosonic")
+                    if not src:
+                        continue
+                    n += 1
+                    ok = d.has_call("xpxp_to_xxpp")
+                    ctx.ob(rule, f.site, ok, "" if ok else f"`{ast.unparse(a)[:30]}` reaches {dotted(c.func)} in the interleaved (xpxp) ordering of "
+                           "the class: for two or more modes the library reads the quadratures of the wrong modes", role=f"walrus-ordering:arg{k}",
+                           line=c.lineno)
+    return n
+
+
 def rules(ctx):
+    walrus_ordering(ctx)
     quadrature_convention(ctx)
     per_mode_order(ctx)
     reduced_purity(ctx)
